@@ -238,6 +238,53 @@ RANGES = {}   # loop index symbol -> (lo, hi): the half-open range it runs over
 SIZES = {}    # placeholder term -> size term
 
 
+def _poly(t):
+    """polynomial over opaque atoms: {sorted tuple of atoms: Fraction}; only +, -, *, neg and numbers
+    are interpreted (exact integer / rational identities, no division)"""
+    if is_num(t):
+        return {(): t[1]} if t[1] != 0 else {}
+    if isinstance(t, tuple) and t and t[0] in ('+', '-') and len(t) == 3:
+        a, b = _poly(t[1]), _poly(t[2])
+        out = dict(a)
+        for m, c in b.items():
+            out[m] = out.get(m, 0) + (c if t[0] == '+' else -c)
+        return {m: c for m, c in out.items() if c != 0}
+    if isinstance(t, tuple) and t and t[0] == 'neg':
+        return {m: -c for m, c in _poly(t[1]).items()}
+    if isinstance(t, tuple) and t and t[0] == '*' and len(t) == 3:
+        a, b = _poly(t[1]), _poly(t[2])
+        if len(a) * len(b) > 64:
+            return {(t,): Fraction(1)}
+        out = {}
+        for m1, c1 in a.items():
+            for m2, c2 in b.items():
+                m = tuple(sorted(m1 + m2, key=repr))
+                out[m] = out.get(m, 0) + c1 * c2
+        return {m: c for m, c in out.items() if c != 0}
+    return {(t,): Fraction(1)}
+
+
+def diff(a, b):
+    """a - b, simplified when the difference collapses (e.g. (i+1)*n - i*n = n); otherwise the plain
+    subtraction term"""
+    plain = sub(a, b)
+    if not (isinstance(plain, tuple) and plain[0] == '-'):
+        return plain
+    try:
+        p = _poly(plain)
+    except RecursionError:
+        return plain
+    if len(p) == 0:
+        return ZERO
+    if len(p) == 1:
+        (m, c), = p.items()
+        if len(m) == 0:
+            return ('num', c)
+        if len(m) == 1 and c == 1:
+            return m[0]
+    return plain
+
+
 def size(v):
     if isinstance(v, tuple):
         k = v[0]
@@ -274,12 +321,12 @@ def size(v):
         if k == 'verase':
             return sub(size(v[1]), sub(v[3], v[2]))
         if k == 'vslice':
-            return sub(v[3], v[2])
+            return diff(v[3], v[2])
         if k == 'ite':
             return ite(v[1], size(v[2]), size(v[3]))
         if k == 'vpsum':
-            return sub(v[3], v[2])
-        if k in ('vscatter', 'vaccum', 'allreduce'):
+            return diff(v[3], v[2])
+        if k in ('vscatter', 'vaccum', 'allreduce', 'vcopy'):
             return size(v[1])
         if k == 'alg' and len(v) > 3:
             return size(v[3])
@@ -318,6 +365,10 @@ def sel(v, i):
                 return sel(v[1], i)
         if k == 'vslice':
             return sel(v[1], add(v[2], i))
+        if k == 'vcopy':
+            # ('vcopy', dst, c, src, a, b): dst with [c, c + b - a) replaced by src[a .. b)
+            inside = land(cmp('<=', v[2], i), cmp('<', i, add(v[2], diff(v[5], v[4]))))
+            return ite(inside, sel(v[3], add(v[4], sub(i, v[2]))), sel(v[1], i))
         if k == 'ite':
             return ite(v[1], sel(v[2], i), sel(v[3], i))
     return ('sel', v, i)
